@@ -100,6 +100,13 @@ def c11_starts():
         A('a', [M('author', [F('name', 'Char', max_length=20)])]),
         A('vab', [M('Book', [F('title', 'Char', max_length=20),
                              F('author', 'FK', to='a.author')])]))))
+    # apps whose label differs from their package (module) name: the
+    # mutators then work with a legacy label next to the real one
+    for name, p in list(starts.s2())[:2] + list(starts.s3())[:1]:
+        q = S.clone(p)
+        for app in q['apps']:
+            app['package'] = app['label'] + 'pkg'
+        out.append((name + '-pkg', q))
     return out
 
 
